@@ -11,7 +11,9 @@ inductive Kind where
   | val                 -- returns / yields a fresh payload (stamped with the execution that made it)
   | none                -- returns / yields `None`
   | falsy (j : Nat)     -- returns / yields the j-th falsy constant (0, '', [], False, …)
-  | exc (c : Nat)       -- raises an exception of class `c` (stamped with the execution as well)
+  | exc (c p : Nat)     -- raises an exception of class `c` carrying payload `p` (stamped with the execution as well);
+                        -- `p` is an opaque id of everything the instance carries beyond its class: the constructor
+                        -- family and arguments it was built with, message, attributes, notes, `__cause__`
   deriving DecidableEq, Repr
 
 /-- scripted behaviour of one execution: what it does and how long it takes (ticks) -/
@@ -21,13 +23,14 @@ structure Beh where
   deriving DecidableEq, Repr
 
 /-- a result as the caller observes it: `val n i` is the payload made by execution `n` (item `i`
-of run `n` for generators), `exc c n` the exception instance raised by execution `n`.  `junk`
+of run `n` for generators), `exc c p n` the exception instance of class `c` with payload `p` raised by
+execution `n` (an answer that is "the same exception" has the same class, payload and stamp).  `junk`
 stands for a stored value no decorator wrote (never reachable; keeps `dec` total). -/
 inductive Res where
   | val (n i : Nat)
   | none
   | falsy (j : Nat)
-  | exc (c n : Nat)
+  | exc (c p n : Nat)
   | junk
   deriving DecidableEq, Repr
 
@@ -35,27 +38,29 @@ def Kind.res (n i : Nat) : Kind → Res
   | .val => .val n i
   | .none => .none
   | .falsy j => .falsy j
-  | .exc c => .exc c n
+  | .exc c p => .exc c p n
 
 def Res.isExc : Res → Bool
-  | .exc _ _ => true
+  | .exc _ _ _ => true
   | _ => false
 
 /-- the stored form: a plain result is stored as itself, an exception as
-`RaiseException(exc)` (`_exception.py`); tagged lists keep the forms apart. -/
+`RaiseException(exc)` (`_exception.py`) - the wrapper holds the instance itself: class, payload and stamp;
+tagged lists keep the forms apart. -/
 def Res.enc : Res → Val
   | .val n i => .nums [0, n, i]
   | .none => .nil
   | .falsy j => .nums [2, j]
-  | .exc c n => .nums [1, c, n]           -- RaiseException(exc)
+  | .exc c p n => .nums [1, c, p, n]      -- RaiseException(exc)
   | .junk => .int 0
 
-/-- `return_or_raise(stored)`: a `RaiseException` raises what it wraps, anything else is returned -/
+/-- `return_or_raise(stored)`: a `RaiseException` raises what it wraps (`raise result.exc`: that very instance,
+not a reconstruction of it from its class and `args`), anything else is returned -/
 def Res.dec : Val → Res
   | .nums [0, n, i] => .val n i
   | .nil => .none
   | .nums [2, j] => .falsy j
-  | .nums [1, c, n] => .exc c n
+  | .nums [1, c, p, n] => .exc c p n
   | _ => .junk
 
 theorem Res.dec_enc (r : Res) : Res.dec r.enc = r := by
@@ -79,16 +84,17 @@ inductive Cond where
 
 def selected (sel : List Nat) (c : Nat) : Bool := sel.isEmpty || sel.contains c
 
-/-- `condition(result, args, kwargs, key=...)` -/
+/-- `condition(result, args, kwargs, key=...)`; the library's own conditions look at the class of an exception
+only (`isinstance(result, exceptions)`), never at its payload; a user callable (`fn`) may look at anything -/
 def Cond.eval : Cond → Kind → (dur : Nat) → CondRes
   | .all, _, _ => .bool true
   | .notNone, k, _ => .bool (k ≠ .none)                -- `result is not None` (an exception is not None)
-  | .withExc sel, .exc c, _ => if selected sel c then .theExc else .bool true
+  | .withExc sel, .exc c _, _ => if selected sel c then .theExc else .bool true
   | .withExc _, _, _ => .bool true
-  | .onlyExc sel, .exc c, _ => if selected sel c then .theExc else .bool false
+  | .onlyExc sel, .exc c _, _ => if selected sel c then .theExc else .bool false
   | .onlyExc _, _, _ => .bool false
   | .fn f, k, _ => match f k, k with
-      | .theExc, .exc _ => .theExc
+      | .theExc, .exc _ _ => .theExc
       | .theExc, _ => .other true                      -- "the exception it was handed" needs an exception
       | r, _ => r
   | .slower limit, _, dur => .bool (decide (limit < dur))
